@@ -20,7 +20,7 @@ for pid in ids:
         "engine": ",".join(e for (e, _, _, _) in c["engines"]),
         "level_claimed": {"category": "proof", "text": c["claim"], "design_ref": c.get("design_ref", f"DESIGN.md §4 {pid}")},
         "level_note": c["note"],
-        "technique": c.get("technique", "Lean 4 theorems over an executable model + differential correspondence check against /repo"),
+        "technique": c.get("technique", "Lean 4 theorems over an executable model; tie to /repo checked on every run by (a) translation of the core crate, LineReader and the closure-free token functions from the Rust source into Lean (tools/gen_core.py) with kernel-checked equations generated = model (Props/Tie*.lean), and (b) a differential correspondence check of model vs. real code (harness/)"),
     })
 na = [{"property_id": pid, "reason": "no check built yet (planned in DESIGN.md §4); nothing is claimed for it"}
       for pid in ids if pid not in PROPS]
